@@ -102,7 +102,7 @@ def twin_fmt(fmt):
     return fmt
 
 
-def build(case):
+def build(case, **ctor):
     m = ArrayMap()
     bns = {"license": "GPL", "m": m, "mode": m.globalVar("B")}
     crng = random.Random(case["valseed"] ^ 0x5a5a)
@@ -177,7 +177,7 @@ def build(case):
         self.exit()
     dns["program"] = program
     Derived = type("VfDerived", (Base,), dns)
-    e = Derived(subprograms=subs)
+    e = Derived(subprograms=subs, **ctor)
     e.vf_consts = consts
     return e, subs, m
 
@@ -372,6 +372,14 @@ def check_case(case, res):
                                 f"program copied {pname}.{n} ({f}) = {v} "
                                 f"into a q variable as {wide}", case=case)
                             return
+            # ---- a second task attached to the map -----------------------
+            if case["valseed"] % 16 < SECOND_TASK[0] and \
+                    not case["inherit_only"]:
+                bad = second_task(case, sess, allvars, vals, res)
+                if bad:
+                    res.violation("unexplained:second-task-reads-differ",
+                                  bad, case=case)
+                    return
             # ---- constants stored by the program ------------------------
             e.mode = 1
             ld.run_k(bytes(64))
@@ -385,10 +393,91 @@ def check_case(case, res):
                         f"the program stored the constant {c!r} into "
                         f"main.{n} ({f}); Python reads {got!r}", case=case)
                     return
+            # ---- after the library's own close() -----------------------
+            # (register_sync_group and XDP.run close the program's file
+            # descriptor once the kernel holds the program, and go on
+            # using its variables)
+            if case["valseed"] % 2 == 0:
+                e.close()
+                res.count("programs_closed_before_further_python_access")
+                for pname, obj, n, f in allvars:
+                    if n.startswith("t_"):
+                        continue
+                    v = value_for(rng, f)
+                    try:
+                        setattr(obj, n, v)
+                        got = getattr(obj, n)
+                        ok = same(f, got, v) is True
+                    except Exception as ex:
+                        got, ok = f"{type(ex).__name__}: {ex}", False
+                    res.count("python_roundtrips_after_close")
+                    if not ok:
+                        res.violation(
+                            "unexplained:python-access-after-close",
+                            f"after close() of the program object "
+                            f"{pname}.{n} ({f}) wrote {v} read {got!r:.80}",
+                            case=case)
+                        return
             if len(res.samples) < 3:
                 res.sample(dict(case=case, ranges=ranges, map_size=msize))
         finally:
             ld.close()
+
+
+SECOND_TASK = [1]      # cases out of 16 that get a second task
+
+
+def second_task(case, sess, allvars, vals, res):
+    """a process of its own (string hash seed of its own) attaches to the
+    map with EBPF(load_maps=...) and reads every variable Python wrote"""
+    import json
+    import os
+    import subprocess
+    import sys
+    from ebpfcat.bpf import MapType
+    import mmap as _mmap
+    e = allvars[0][1].ebpf if allvars else None
+    fds = []
+    for fd, mp in sess.maps.items():
+        if mp["type"] != MapType.ARRAY or e is None:
+            continue
+        mine = bytes(e.__dict__[type(e).m.name][:])
+        if mp["value_size"] * mp["max_entries"] != len(mine):
+            continue
+        with _mmap.mmap(fd, len(mine)) as view:
+            if bytes(view[:]) == mine:
+                fds.append(fd)
+    if len(fds) != 1:
+        res.count("second_task_skipped_map_not_identified")
+        return None
+    # (what the first task reads now: Python's writes, and the elements the
+    # program stored through a pointer)
+    expect = [[pname, n, f, getattr(obj, n)] for pname, obj, n, f in allvars
+              if not n.startswith("t_")]
+    hs = str(1 + case["valseed"] % 997)
+    env = dict(os.environ, PYTHONHASHSEED=hs)
+    try:
+        p = subprocess.run(
+            [sys.executable, "-m", "vf.c08_child"],
+            input=json.dumps(dict(case=case, fd=fds[0], expect=expect)),
+            capture_output=True, text=True, env=env, pass_fds=(fds[0],),
+            timeout=120)
+    except subprocess.TimeoutExpired:
+        res.inconc("second task: watchdog")
+        return None
+    if p.returncode != 0:
+        return (f"the second task (PYTHONHASHSEED={hs}) could not attach: "
+                f"{p.stderr.strip().splitlines()[-1:]}")
+    out = json.loads(p.stdout)
+    res.count("second_tasks_attached")
+    res.count("second_task_reads", out["read"])
+    if out["bad"]:
+        b = out["bad"][0]
+        return (f"a second task (PYTHONHASHSEED={hs}) attached with "
+                f"load_maps reads {b[0]}.{b[1]} ({b[2]}) as {b[4]}; the "
+                f"first task wrote {b[3]} ({len(out['bad'])} of "
+                f"{out['read']} variables differ)")
+    return None
 
 
 def key_layout(case, n, other=None):
@@ -576,6 +665,7 @@ def percpu_leg(res, rng):
 def run_shard(params):
     res = Result()
     rng = random.Random(params["seed"] * 100103 + params["shard"])
+    SECOND_TASK[0] = 1 if params["n"] <= 300 else 2
     for i in range(params["n"]):
         check_case(gen_case(rng), res)
     percpu_leg(res, rng)
